@@ -18,11 +18,32 @@ def MasterSt.stimNow (m : MasterSt) (st : Stim) : Int := if st.real < m.now then
 def MasterSt.stimStamp (m : MasterSt) (s : Speed) (st : Stim) : SimTime :=
   interruptStamp m.tickerTime (m.stimNow st) m.lastReal s
 
+/-- the time the master records for an interrupt of top-level component `top` stamped `stamp`:
+the stamp, unless `top` already has an earlier wakeup (`masterRun`, stimulus branch) -/
+def SimSt.stimWhen (st : SimSt) (top : Comp) (stamp : SimTime) : SimTime :=
+  match alookup (st.sched "").wake top with
+  | some w => if w < stamp then w else stamp
+  | none => stamp
+
+/-- when no wakeup of `top` is earlier than the stamp, the stamp is recorded -/
+theorem SimSt.stimWhen_eq_stamp_of_timely (st : SimSt) (top : Comp) (stamp : SimTime)
+    (h : ∀ w, alookup (st.sched "").wake top = some w → stamp ≤ w) :
+    st.stimWhen top stamp = stamp := by
+  unfold SimSt.stimWhen
+  split
+  · rename_i w hw
+    have := h w hw
+    simp only [SimTime] at *
+    split <;> omega
+  · rfl
+
 /-- the master after handling stimulus `st` -/
 def MasterSt.afterStim (S : Static) (fuel : Nat) (s : Speed) (m : MasterSt) (st : Stim) : MasterSt :=
   { m with
     sim := (raiseInterrupt S fuel st.comp m.sim).1.addMasterWake
-      (raiseInterrupt S fuel st.comp m.sim).2 (m.stimStamp s st)
+      (raiseInterrupt S fuel st.comp m.sim).2
+      ((raiseInterrupt S fuel st.comp m.sim).1.stimWhen (raiseInterrupt S fuel st.comp m.sim).2
+        (m.stimStamp s st))
     now := m.stimNow st }
 
 theorem masterRun_unfold (S : Static) (orc : Oracle) (fuel : Nat) (s : Speed) (steps nTicks : Nat)
@@ -215,17 +236,49 @@ theorem masterRun_corrP {S : Static} (hS : S.Valid) {orc : Oracle} {n : Nat} (hs
                   simpa using htim1
               exact Int.le_trans h0 (hle c w hw)
         have hc2 := corrP_stim hS hc hxd hk1 hk2 hI hminw n
+        -- a timely stamp is not later than any wakeup of the interrupted component, on either side:
+        -- the time recorded (`stimWhen`, the earlier of the two) is the stamp itself
+        have hwhen : (raiseInterrupt S fuel st.comp m.sim).1.stimWhen
+            (raiseInterrupt S fuel st.comp m.sim).2 (m.stimStamp sp st) = m.stimStamp sp st := by
+          apply SimSt.stimWhen_eq_stamp_of_timely
+          intro w hw
+          obtain ⟨_, _, _, _, _, hwk, _⟩ := raise_spec hS fuel st.comp m.sim k hk1 hk2
+          rw [(hwk "").1] at hw
+          exact hminw _ w hw
+        have hwhen' : (raiseInterrupt (S.flatten n) 1 st.comp m'.sim).1.stimWhen
+            (raiseInterrupt (S.flatten n) 1 st.comp m'.sim).2 (m.stimStamp sp st) =
+              m.stimStamp sp st := by
+          rw [raiseInterrupt_flat S n hxd]
+          apply SimSt.stimWhen_eq_stamp_of_timely
+          intro w hw
+          simp only [] at hw
+          by_cases hxI : st.comp ∈ I
+          · rw [hc.wake_int _ hxI] at hw
+            cases hw
+            rw [hI (List.ne_nil_of_mem hxI)]
+            exact Int.le_refl _
+          · obtain ⟨P, hP⟩ := Option.isSome_iff_exists.1 hxd.1
+            rw [hc.wake_dev _ P hxd hxI hP] at hw
+            have hb : S.Below "" st.comp := Static.below_master hS.toWF hxd.1
+            obtain ⟨a, w', ha, hle⟩ := hc.dominated hS hb P w hP hw
+            exact Int.le_trans (hminw a w' ha) hle
         have hm' : m'.afterStim (S.flatten n) 1 sp st =
             { m' with
               sim := (raiseInterrupt (S.flatten n) 1 st.comp m'.sim).1.addMasterWake
                 (raiseInterrupt (S.flatten n) 1 st.comp m'.sim).2 (m.stimStamp sp st)
               now := m.stimNow st } := by
-          simp only [MasterSt.afterStim, hstamp, hnow]
+          simp only [MasterSt.afterStim, hstamp, hnow, hwhen']
+        have hm : m.afterStim S fuel sp st =
+            { m with
+              sim := (raiseInterrupt S fuel st.comp m.sim).1.addMasterWake
+                (raiseInterrupt S fuel st.comp m.sim).2 (m.stimStamp sp st)
+              now := m.stimNow st } := by
+          simp only [MasterSt.afterStim, hwhen]
         refine ih (nTicks + 1) true (m.afterStim S fuel sp st) (m'.afterStim (S.flatten n) 1 sp st)
           rest acc acc' (st.comp :: I) (m.stimStamp sp st) ?_ (fun h' => by cases h') ?_ ht hr
           (fun s hs => hdevs s (List.mem_cons_of_mem _ hs))
           (fun s hs => hsafe s (List.mem_cons_of_mem _ hs)) ?_ htim2 m2 ticks h
-        · rw [hm']
+        · rw [hm', hm]
           exact hc2
         · rw [hm']
           exact ⟨hclk.1, hclk.2.1, rfl⟩
